@@ -49,9 +49,50 @@ LATER = {
 }
 
 
+# dimensions of use added in the eleventh and twelfth rounds (DESIGN.md 7.1)
+LATEST = {
+    "C01": " Latest: single sinks given as Net(source, sink), nets and "
+           "constraints of the program's own subclasses, debug logging "
+           "switched on.",
+    "C02": " Latest: debug logging switched on (root logger at DEBUG), nets "
+           "of a Net subclass, single sinks given as the vertex.",
+    "C03": " Latest: single sinks given as Net(source, sink).",
+    "C04": " Latest: ordered covering in two stages, the second one given "
+           "the first one's table and aliases.",
+    "C05": " Latest: null reservations slice(a, a).",
+    "C07": " Latest: blocks at the two ends of the 32-bit address space.",
+    "C08": " Latest: a refused assign_fields() is repeated once; a layout "
+           "the repetition reports is verified like any other.",
+    "C09": " Latest: one file under two spellings in a map; binaries of 254 "
+           "and 255 blocks.",
+    "C10": " Latest: keys with bits outside their mask; hops that are "
+           "instances of a RoutingTree subclass.",
+    "C12": " Latest: neighbouring chips with overlapping core sets (more "
+           "region words than chips); targets in a defaultdict(set), which "
+           "must come back unchanged.",
+    "C13": " Latest: truncation warnings turned into errors (a refused "
+           "transfer moved the position by exactly the bytes sent); a second "
+           "allocation at the same address on another chip stays alive.",
+    "C14": " Latest: a silent chip answers again before the same controller "
+           "probes once more.",
+    "C15": " Latest: the argument count given by position.",
+    "C16": " Latest: arrays of 65536-140000 elements (metamorphic: filled "
+           "with checked values); formats given by keyword.",
+    "C17": " Latest: nets of a Net subclass in every pipeline case drawn "
+           "with subclassed constraints.",
+    "C18": " Latest: get_system_info's memory reads go to the start chip "
+           "named.",
+    "C19": " Latest: root chips given by position, by keyword, mixed, or "
+           "left out.",
+    "C20": " Latest: struct files of the caller's own, with and without an "
+           "own image.",
+}
+
+
 def add(pid, built, category, technique, text, note, ref):
     T[pid] = dict(built=built, category=category, technique=technique,
-                  text=text + LATER.get(pid, ""), note=note, ref=ref)
+                  text=text + LATER.get(pid, "") + LATEST.get(pid, ""),
+                  note=note, ref=ref)
 
 
 add("C19", True, "exploration",
